@@ -548,6 +548,24 @@ func c01R3(p *Prog, r *Report) {
 		r.Bad("C01.R3", "ProcessSegments fan-out/fan-in shape", p.Pos(ps.Pos()), fmt.Sprintf("primary and secondary record cutting both run in goroutines but there are only %d WaitGroup.Wait joins: one is needed before Distribute and one before the streams are trimmed", len(waits)))
 		return
 	}
+	// the streams must not be trimmed by the per-channel goroutines themselves: primaries of all
+	// channels (and then the secondaries cut from them) are still to be read from the streams
+	if len(gosPrim)+len(gosSec) > 0 {
+		var inGo ssa.Instruction
+		for _, gd := range append(append([]DeepInstr{}, gosPrim...), gosSec...) {
+			for _, f := range ResolveOr(p, gd.In.(*ssa.Go)) {
+				InstrsDeep(f, 2, func(x DeepInstr) {
+					if calleeNamed(x.In, "TrimStream", "TrimKeepingN") {
+						inGo = x.In
+					}
+				})
+			}
+		}
+		if inGo != nil {
+			r.Bad("C01.R3", "streams trimmed only after all records are cut", p.InstrPos(inGo), "a stream is trimmed inside a per-channel processing goroutine, before the second join: group-trigger (secondary) records of this block are cut from a stream that has already lost the samples they need")
+			return
+		}
+	}
 	if len(waits) < 2 || len(gosPrim) == 0 || len(gosSec) == 0 || len(dist) == 0 || len(trims) == 0 {
 		r.Unk("C01.R3", "ProcessSegments fan-out/fan-in shape", p.Pos(ps.Pos()), fmt.Sprintf("expected two WaitGroup.Wait, primary and secondary goroutines, Distribute and TrimStream in ProcessSegments or its helpers; found waits=%d prim=%d sec=%d distribute=%d trim=%d", len(waits), len(gosPrim), len(gosSec), len(dist), len(trims)))
 		return
